@@ -1,6 +1,6 @@
 (* C06 -- property theorems only.  Proofs live in C06/Proofs*.v and C06/Tables.v. *)
 From Coq Require Import NArith List Bool.
-From DV Require Import Base.Outcome Base.Bytes C06.Gen C06.Model C06.Proofs C06.Proofs2 C06.Tables C06.B32 C06.Proofs3 C06.Proofs4 C06.Blob C06.Proofs5 C06.Svc C06.SvcProofs C06.SvcProofs2 C06.Ip6Proofs.
+From DV Require Import Base.Outcome Base.Bytes C06.Gen C06.Model C06.Proofs C06.Proofs2 C06.Tables C06.B32 C06.Proofs3 C06.Proofs4 C06.Blob C06.Proofs5 C06.Svc C06.SvcProofs C06.SvcProofs2 C06.Ip6Proofs C06.ProofsW.
 Import ListNotations.
 Local Open Scope N_scope.
 
@@ -300,3 +300,31 @@ Theorem C06_read_uint_overflow_is_error :
   read_uint 255 (mk_tok false true (digit_syms [50; 53; 54])) = Err E_number.
 Proof. exact read_uint_overflow_is_error. Qed.
 Print Assumptions C06_read_uint_overflow_is_error.
+
+(* IPv6 text for EVERY address: the compiled pattern match of show_ip6 is the IPv4-mapped test,
+   both branches read back, and the text is a legal SVCB list item (no premise left on ipv6hint) *)
+Theorem C06_ip6_show_branches : forall g, length g = 8%nat ->
+  show_ip6 g = if ip6_mapped g then show_ip6_mapped g else show_ip6_general g.
+Proof. exact show_ip6_branches. Qed.
+Print Assumptions C06_ip6_show_branches.
+
+Theorem C06_ip6_mapped_roundtrip : forall g6 g7, g6 < 65536 -> g7 < 65536 ->
+  parse_ip6 ([58; 58; 102; 102; 102; 102; 58] ++ show_ip4 [g6 / 256; g6 mod 256; g7 / 256; g7 mod 256])
+  = Some [0; 0; 0; 0; 0; 65535; g6; g7].
+Proof. exact ip6_mapped_roundtrip. Qed.
+Print Assumptions C06_ip6_mapped_roundtrip.
+
+Theorem C06_ip6_roundtrip : forall g, wf_ip6 g -> parse_ip6 (show_ip6 g) = Some g.
+Proof. exact ip6_roundtrip. Qed.
+Print Assumptions C06_ip6_roundtrip.
+
+Theorem C06_ip6_text_is_list_item : forall g, wf_ip6 g ->
+  parse_ip6 (show_ip6 g) = Some g /\ item_ok (show_ip6 g) /\ forallb plain_char (show_ip6 g) = true.
+Proof. exact ip6_text_ok_all. Qed.
+Print Assumptions C06_ip6_text_is_list_item.
+
+Theorem C06_svc_ipv6hint_roundtrip_all : forall l sp, l <> [] -> Forall wf_ip6 l ->
+  good_shape (TWord (show_param (PIp6hint l))) = true /\
+  read_param (shape_tok sp (TWord (show_param (PIp6hint l)))) = Ok (PIp6hint l).
+Proof. exact svc_ipv6hint_roundtrip_all. Qed.
+Print Assumptions C06_svc_ipv6hint_roundtrip_all.
